@@ -17,6 +17,7 @@ import RsMatterVerif.Lemmas.CodecMdnsRound
 import RsMatterVerif.Lemmas.CodecMdnsService
 import RsMatterVerif.Lemmas.CodecX509Sound -- E3
 import RsMatterVerif.Lemmas.CodecCd -- E3
+import RsMatterVerif.Lemmas.CodecDerLinkWalk -- G5 (audit C17 concern 2; imports CodecDerLinkX509, CodecDerLink)
 /-!
 # C17 — headers, onboarding payloads and discovery records decode what was encoded
 
@@ -1255,5 +1256,42 @@ def sampleDevice : DeviceInfo :=
     paiProductId := 0, paaSkid := List.replicate 20 0xAB }
 example : validSpec sampleCd sampleDevice := by
   refine ⟨rfl, rfl, by decide, ⟨rfl, rfl, rfl, Or.inl rfl⟩, Or.inr (by decide)⟩
+
+end C17
+
+/-! ## (G5, audit concern 2) the DER reader of `cert_der_roundtrip` linked to the `der`-crate reading layer, and the
+X.509 parser's field readers on the output of `as_asn1`
+
+The statements live (with docstrings and non-vacuity examples) in `Lemmas/CodecDerLink.lean` and
+`Lemmas/CodecDerLinkX509.lean`; headline theorems, all in namespace `C17` / `Codec.Der` / `Codec.CertAsn1`:
+`Codec.Der.readTree_enc`, `Codec.Der.readTree_sound`, `Codec.Der.readTree_iff_parseDer`, `Codec.Der.fromDerAny_enc_der`,
+`Codec.Der.seqItems_encL`, `Codec.CertAsn1.certFieldsOfDer_known`, `C17.cert_der_roundtrip_derrd`,
+`Codec.CertAsn1.hexRead_hexUp`, `Codec.CertAsn1.parseHexU16_hexUp`, `Codec.CertAsn1.asn1_tbs_layout`,
+`C17.cert_x509_field_readers`; `Lemmas/CodecDerLinkWalk.lean`: `Codec.DerRd.x509New_tbs_refused`, `Codec.CertAsn1.cal_days`,
+`Codec.CertAsn1.calOf_agree`, `Codec.CertAsn1.run_validity_asn1`, `C17.cert_x509_tbs_walk`, `Codec.DerRd.fails_extLoop`,
+`C17.cert_x509_exts_read`, `C17.cert_x509_exts_eku_refused`. -/
+namespace C17
+open Codec Codec.Der Codec.CertAsn1
+
+/-- the two DER readers agree on every byte string within `Length::MAX` (restated from `Lemmas/CodecDerLink.lean`) -/
+theorem der_readers_agree (l : List Nat) (hb : ∀ b ∈ l, b < 256) (hmax : l.length ≤ Codec.DerRd.MAX_LEN) (d : Der) :
+    readTree l = some d ↔ parseDer l = some d ∧ d.known = true :=
+  readTree_iff_parseDer l hb hmax d
+example : (∀ b ∈ [0x30, 3, 0x02, 1, 5], b < 256) ∧ [0x30, 3, 0x02, 1, 5].length ≤ Codec.DerRd.MAX_LEN := by decide
+
+/-- `cert_der_roundtrip_derrd` applies to `certSample` -/
+example : ∃ n, certNode certSample = some n ∧ ∀ buf : List Nat, n.need ≤ buf.length → buf.length < 65536 →
+    ∃ d v, asAsn1 certSample.lazy buf = .ok n.enc ∧
+      Codec.DerRd.fromDerAny n.enc = .ok (d.tag, d.body) ∧ readTree n.enc = some d ∧ parseDer n.enc = some d ∧
+      d.known = true ∧ certFieldsOfDer d = some v ∧ certSample.view = some v :=
+  cert_der_roundtrip_derrd certSample (by
+    refine ⟨rfl, rfl, rfl, by decide, by decide, ?_, ?_, ?_⟩
+    · intro a ha; simp [certSample] at ha; rcases ha with rfl | rfl <;> simp [Attr.WF]
+    · intro a ha; simp [certSample] at ha; rcases ha with rfl | rfl | rfl <;> simp [Attr.WF]
+    · intro e he; simp [certSample] at he
+      rcases he with rfl | rfl | rfl | rfl | rfl <;> simp [XExt.WF])
+
+/-- the sample of `cert_x509_field_readers` is `certSample` with a full-length public key -/
+example : certSampleX509 = { certSample with pubkey := 4 :: List.replicate 64 7 } := rfl
 
 end C17
